@@ -572,7 +572,8 @@ impl GlyphClosure for ContextFormat1<'_> {
                     } else if sequence_idx == 0 {
                         Some(IntSet::from([coverage.iter().nth(i).unwrap()]))
                     } else {
-                        let Some(glyph) = rule.input_sequence().get(sequence_idx as usize - 1) else {
+                        let Some(glyph) = rule.input_sequence().get(sequence_idx as usize - 1)
+                        else {
                             continue;
                         };
                         Some(IntSet::from([glyph.get()]))
